@@ -370,8 +370,7 @@ static bool execute(Plan &plan) {
                 drive<char32_t>(plan, cx);
             else
                 drive<wchar_t>(plan, cx);
-            if (!qsim::run_aborted() && qsim::live_lib_blocks() != 0)
-                qsim::report("leak", "json", std::to_string(qsim::live_lib_blocks()) + " library block(s) still allocated after every parse result was destroyed");
+            if (!qsim::run_aborted()) qsim::check_leaks("json");
         },
         stack);
     return cx.faults_fired > 0 || cx.parses >= 5;
